@@ -90,6 +90,7 @@ def run(ctx):
     cursor_rule(ctx, syn)
     print_rule(ctx, syn)
     lossless_rule(ctx, syn)
+    verbatim_rule(ctx, syn)
 
     # ---------------- keyword tables
     r_kw = ctx.rule("C09.KW", "every keyword a printer can emit is accepted by the parser")
@@ -654,3 +655,46 @@ def lossless_rule(ctx, syn):
             if not ok_:
                 ctx.report(r, "render:" + key, "DataOperator::%s prints its datetime through %s; an exact rendering is %s" % (key, how, LOSSLESS_DT), fn.file, a["l"])
     ctx.floor(r, n, 15, "operator arms with a numeric or datetime payload")
+
+
+# ---------------------------------------------------------------------- VERBATIM
+TRANSFORMS = {"replace", "replacen", "escape_default", "escape_debug", "escape_unicode", "to_lowercase", "to_uppercase", "to_ascii_lowercase", "to_ascii_uppercase",
+              "trim", "trim_start", "trim_end", "trim_matches", "trim_start_matches", "trim_end_matches", "strip_prefix", "strip_suffix"}
+
+
+def verbatim_rule(ctx, syn):
+    """The parser is zero-copy: get_arg hands out slices of the input (`&'a str`), so whatever stands between the quotes
+    of a literal is the operand, backslashes included.  The printers must therefore put a string operand between the
+    quotes exactly as it is; a printer that escapes, trims or re-cases it prints a literal that parses to another operand
+    (and grows with every print/parse round)."""
+    r = ctx.rule("C09.VERBATIM", "the query printers emit string operands verbatim (the parser reads the text between the quotes as it is, it never un-escapes): no string operand passes through an escaping / trimming / re-casing call or a crate function that rebuilds it on its way into the output")
+    ga = [f for f in syn.fns if f.name == "get_arg" and f.file == "src/api/query.rs"]
+    if len(ga) != 1:
+        ctx.anchor_missing(r, "fn get_arg")
+        return
+    ret = re.sub(r"\s+", "", (ga[0].sig.get("output") or {}).get("s", "") if isinstance(ga[0].sig.get("output"), dict) else str(ga[0].sig.get("output")))
+    r.hit("get_arg:zero-copy", sample={"get_arg_returns": ret})
+    if "&'astr" not in ret and "&str" not in ret:
+        ctx.report(r, "parser-not-zero-copy", "get_arg no longer returns slices of the input (%s): whether the parser un-escapes literals has to be re-established before the printers can be judged" % ret, ga[0].file, ga[0].line)
+        return
+    local_string_fns = set(f.name for f in syn.fns if f.impl is None and f.file in ("src/api/query.rs", "src/datavalue.rs") and "String" in re.sub(r"\s+", "", str((f.sig.get("output") or {}).get("s", "") if isinstance(f.sig.get("output"), dict) else f.sig.get("output"))) and "Result" not in str(f.sig.get("output")))
+    printers = [f for f in syn.fns if f.name == "to_string" and f.body is not None and ((f.file == "src/api/query.rs" and re.match(r"^(Constraint|Query|Assignment)", f.self_ty or "")) or (f.file == "src/datavalue.rs" and "DataOperator" in (f.self_ty or "")))]
+    ctx.floor(r, len(printers), 3, "query printers")
+    n = 0
+    for fn in printers:
+        ctx.functions_analysed.add(fn.qual)
+        for mac in walk(fn.body):
+            if mac.get("k") != "macro" or mac["name"] not in ("format", "write", "writeln") or not mac.get("args"):
+                continue
+            for a in mac["args"][1:]:
+                n += 1
+                bad = None
+                for x in walk(a):
+                    if x.get("k") == "mcall" and x["method"] in TRANSFORMS:
+                        bad = "." + x["method"] + "(..)"
+                    if x.get("k") == "call" and strip(x["func"]).get("k") == "path" and len(strip(x["func"])["path"]) == 1 and strip(x["func"])["path"][0] in local_string_fns:
+                        bad = strip(x["func"])["path"][0] + "(..)"
+                if bad:
+                    ctx.report(r, "%s|%s" % (fn.qual, bad), "%s prints an operand through %s: the parser keeps the text between the quotes as it is, so the printed literal parses to a different operand and printing is no fixpoint" % (fn.qual, bad), fn.file, mac.get("l"))
+    r.hit("format-arguments", sample={"format_arguments_examined": n})
+    ctx.floor(r, n, 40, "format arguments in the query printers")
